@@ -712,15 +712,17 @@ func (rs *runState) finish() int {
 	}
 	rs.extra["distinct_violation_signatures"] = len(sigs)
 	rs.writePart()
+	// infrastructure problems are printed even when violations exist: a broken shape of mine silently removes its whole
+	// batch from the run otherwise
+	for i, s := range rs.infra {
+		if i < 5 {
+			fmt.Println("INFRA:", s)
+		}
+	}
 	if len(rs.viols) > 0 {
 		return 1
 	}
 	if len(rs.infra) > 0 {
-		for i, s := range rs.infra {
-			if i < 5 {
-				fmt.Println("INFRA:", s)
-			}
-		}
 		return 2
 	}
 	return 0
